@@ -5,8 +5,8 @@ never part of the verdict on /repo.  A mutation whose `old` text is no longer pr
 M = {}
 
 
-def m(pid, name, file, old, new, expect):
-    M.setdefault(pid, []).append({"name": name, "file": file, "old": old, "new": new, "expect": expect})
+def m(pid, name, file, old, new, expect, more=()):
+    M.setdefault(pid, []).append({"name": name, "file": file, "old": old, "new": new, "expect": expect, "more": list(more)})
 
 
 # ---- C18 / C04 / C12 : token walkers -------------------------------------------------------------
@@ -232,4 +232,6 @@ m("C14", "long-bracket-not-gated", "src/generator/utils.rs",
 m("C16", "vararg-receiver-duplicated-bare", "src/rules/remove_method_call.rs",
   "                | Expression::VariableArguments(_)\n                | Expression::TypeCast(_)",
   "                | Expression::TypeCast(_)",
-  "C16.receiver|")
+  "C16.receiver|first-argument-single-valued|VariableArguments",
+  more=[("                | Expression::Identifier(_) => Some(parenthese", "                | Expression::VariableArguments(_)\n                | Expression::Identifier(_) => Some(parenthese"),
+        (".insert(0, Expression::from(new_prefix));", ".insert(0, match new_prefix {\n                    Prefix::Parenthese(p) => p.inner_expression().clone(),\n                    other => Expression::from(other),\n                });")])
